@@ -727,6 +727,10 @@ class StrategyBase(Node):
 
                 # avoid useless update call
                 if c._issec and not c._needupdate:
+                    # (a security closed out earlier on this date still
+                    # counts with the bid/offer it paid on this date)
+                    if self._bidoffer_set and c.now == date:
+                        bidoffer_paid += c._bidoffer_paid
                     continue
 
                 c.update(date, data, inow)
